@@ -144,10 +144,11 @@ fn text_with_carats_and_line_count_buffer_and_line_numbers(
                 last_line_with_span = output_lines.len() + 1;
 
                 let mut carats = String::new();
-                for _ in 0..start_of_carats {
+                // One column per character (not per byte) of the source line printed above
+                for _ in prefix.chars() {
                     carats.push(' ');
                 }
-                for _ in start_of_carats..end_of_carats {
+                for _ in highlighted.chars() {
                     carats.push_str(&format!(
                         "{}",
                         if colorize_carats {
@@ -157,7 +158,7 @@ fn text_with_carats_and_line_count_buffer_and_line_numbers(
                         }
                     ));
                 }
-                for _ in end_of_carats..line_len {
+                for _ in suffix.chars() {
                     carats.push(' ');
                 }
 
